@@ -169,6 +169,7 @@ type Layouter struct {
 	bvMode  bool // integers are bit-vectors of their width
 	cache   map[string][]Leaf
 	typeIDs map[string]int
+	anyAs   Sort // relational mode: the empty interface is one abstract value
 }
 
 func NewLayouter(ctx *Ctx, bv bool) *Layouter {
@@ -276,6 +277,8 @@ func (l *Layouter) Leaves(t types.Type) []Leaf {
 	case *types.TypeParam:
 		if c := coreOf(x); c != nil {
 			out = l.Leaves(c)
+		} else if l.anyAs != "" {
+			out = []Leaf{{"", l.anyAs, t}}
 		} else {
 			out = []Leaf{{"", l.ctx.DeclareSort("U_" + x.Obj().Name()), t}}
 		}
@@ -294,7 +297,11 @@ func (l *Layouter) Leaves(t types.Type) []Leaf {
 	case *types.Slice:
 		out = []Leaf{{"base", SInt, t}, {"off", SInt, t}, {"len", SInt, t}, {"cap", SInt, t}}
 	case *types.Interface:
-		out = []Leaf{{"tag", SInt, t}, {"box", l.ctx.DeclareSort("Box"), t}}
+		if l.anyAs != "" && x.NumMethods() == 0 {
+			out = []Leaf{{"", l.anyAs, t}}
+		} else {
+			out = []Leaf{{"tag", SInt, t}, {"box", l.ctx.DeclareSort("Box"), t}}
+		}
 	case *types.Struct:
 		for i := 0; i < x.NumFields(); i++ {
 			for _, lf := range l.Leaves(x.Field(i).Type()) {
